@@ -17,7 +17,9 @@
        capacity [hsz] (documented precondition);
      - mpt_slice_write may accept fewer elements than offered ([hcnt]);
        its "prepare memory" form (element size 0) never changes a value, its
-       verdict [hacc] is the implementation's. *)
+       verdict [hacc] is the implementation's;
+     - the C++ slice::shift/trim and array = slice are applied by the harness only
+       to a slice whose window lies inside the data ([hcons]). *)
 From MptV Require Import Base.Mem C04.ArrayModel.
 Local Open Scope nat_scope.
 Local Open Scope bool_scope.
@@ -25,7 +27,10 @@ Local Open Scope bool_scope.
 Definition sval := option (nat * list byte).
 Definition sv := (bool * sval)%type.          (* (is a slice handle, value) *)
 
-Record hint := mkhint { hsh : bool; him : bool; hnc : bool; hsz : nat; hcnt : nat; hacc : bool }.
+Record hint := mkhint { hsh : bool; him : bool; hnc : bool; hsz : nat; hcnt : nat; hacc : bool; hcons : bool }.
+
+Definition with_cons (h : hint) (c : bool) : hint :=
+  mkhint (hsh h) (him h) (hnc h) (hsz h) (hcnt h) (hacc h) c.
 
 Definition svec (v : sval) : list byte := match v with None => [] | Some (_, l) => l end.
 
@@ -185,6 +190,23 @@ Definition s_write (h : hint) (v : sval) (nblk esz : nat) (from : bool) (d : lis
       Dn (Some (0, firstn (hcnt h * esz) (norm (nblk * esz) from d))) (hcnt h)
   end.
 
+(* ---- C++ entry points *)
+Definition s_xassign (from : sval) : sval * outcome := D from.
+Definition s_xset (d : list byte) : sval * outcome := D (Some (0, d)).
+Definition s_xsetstr (text : list byte) : sval * outcome := D (Some (1, text ++ [0%N])).
+Definition s_xasl (h : hint) (v w : sval) : sval * outcome :=
+  if hcons h then D (Some (0, svec w)) else G v.
+Definition s_xmks (from : sval) : sval * outcome :=
+  D (match from with None => None | Some (t, l) => Some (t, if t =? 0 then l else []) end).
+Definition s_xshift (h : hint) (v : sval) (n : nat) : sval * outcome :=
+  if negb (hcons h) then G v else
+  if length (svec v) <? n then R v else
+  D (match v with None => None | Some (t, l) => Some (t, skipn n l) end).
+Definition s_xtrim (h : hint) (v : sval) (n : nat) : sval * outcome :=
+  if negb (hcons h) then G v else
+  if length (svec v) <? n then R v else
+  D (match v with None => None | Some (t, l) => Some (t, firstn (length l - n) l) end).
+
 (* one operation on the vector of all handle values: only the target changes *)
 Definition sstep (vs : list sv) (o : op) (h : hint) : list sv * outcome :=
   let x := target o in
@@ -216,6 +238,20 @@ Definition sstep (vs : list sv) (o : op) (h : hint) : list sv * outcome :=
     if negb (y <? length vs) || fst (nth y vs (false, None)) then (vs, OGuard)
     else fin (s_mkslice v (snd (nth y vs (false, None))) off len)
   | OWrite _ nblk esz from d => fin (s_write h v nblk esz from d)
+  | OXAssign _ y =>
+    if negb (y <? length vs) || fst (nth y vs (false, None)) then (vs, OGuard)
+    else fin (s_xassign (snd (nth y vs (false, None))))
+  | OXAppend _ d => fin (s_append h v d)
+  | OXSet _ d => fin (s_xset d)
+  | OXSetStr _ text => fin (s_xsetstr text)
+  | OXAssignSlice _ s =>
+    if negb (s <? length vs) || negb (fst (nth s vs (false, None))) then (vs, OGuard)
+    else fin (s_xasl h v (snd (nth s vs (false, None))))
+  | OXMkSlice _ y =>
+    if negb (y <? length vs) || fst (nth y vs (false, None)) then (vs, OGuard)
+    else fin (s_xmks (snd (nth y vs (false, None))))
+  | OXShift _ n => fin (s_xshift h v n)
+  | OXTrim _ n => fin (s_xtrim h v n)
   end.
 
 (* ---- the link to the mechanism state *)
@@ -235,14 +271,24 @@ Definition abs (st : state) : list sv := map (absh (sheap st)) (shnd st).
 Definition vis_count (out : outcome) : nat := match out with ODone n _ => n | _ => 0 end.
 Definition accepted (out : outcome) : bool := match out with ODone _ _ => true | _ => false end.
 
-Definition hint_of (st : state) (o : op) (out : outcome) : hint :=
+Definition hint_base (st : state) (o : op) (out : outcome) : hint :=
   match hbuf (hnd st (target o)) with
-  | None => mkhint false false false 0 (vis_count out) (accepted out)
+  | None => mkhint false false false 0 (vis_count out) (accepted out) true
   | Some i => match hget (sheap st) i with
-              | None => mkhint false false false 0 (vis_count out) (accepted out)
-              | Some b => mkhint (shared b) (bimm b) (bnc b) (bsize b) (vis_count out) (accepted out)
+              | None => mkhint false false false 0 (vis_count out) (accepted out) true
+              | Some b => mkhint (shared b) (bimm b) (bnc b) (bsize b) (vis_count out) (accepted out) true
               end
   end.
+
+(* the slice whose window the harness checks before applying the operation *)
+Definition cons_of (st : state) (o : op) : bool :=
+  match o with
+  | OXAssignSlice _ s => consistent st s
+  | _ => consistent st (target o)
+  end.
+
+Definition hint_of (st : state) (o : op) (out : outcome) : hint :=
+  with_cons (hint_base st o out) (cons_of st o).
 
 (* value-level projection of an outcome (the mechanism number is dropped) *)
 Definition vis (out : outcome) : outcome := match out with ODone n _ => ODone n 0 | o => o end.
